@@ -19,12 +19,23 @@ def main():
     assert sh("git -C /repo status --porcelain --untracked-files=no").stdout.strip() == "", "repo working tree not clean"
     for m in M:
         if names and m["name"] not in names: continue
-        path = R + m["file"]
-        src = open(path).read()
-        if src.count(m["old"]) != 1:
-            print("SKIP %s: pattern occurs %d times" % (m["name"], src.count(m["old"]))); continue
+        edits = m.get("edits") or [{"file": m["file"], "old": m["old"], "new": m["new"]}]
+        originals = {}
+        ok = True
+        for e in edits:
+            path = R + e["file"]
+            src = originals.get(path) or open(path).read()
+            originals.setdefault(path, src)
+        work = dict(originals)
+        for e in edits:
+            path = R + e["file"]
+            if work[path].count(e["old"]) != 1:
+                print("SKIP %s: pattern occurs %d times in %s" % (m["name"], work[path].count(e["old"]), e["file"])); ok = False; break
+            work[path] = work[path].replace(e["old"], e["new"])
+        if not ok: continue
         try:
-            open(path, "w").write(src.replace(m["old"], m["new"]))
+            for path, txt in work.items():
+                open(path, "w").write(txt)
             row = {"name": m["name"], "expect": m["props"], "neutral": m.get("neutral", False)}
             if tests:
                 r = sh("cd /repo && cargo test --workspace --no-fail-fast --offline 2>&1 | grep -E '^test result' | awk '{p+=$4; f+=$6} END {print p, f}'")
@@ -39,7 +50,8 @@ def main():
             results.append(row)
             print(json.dumps(row))
         finally:
-            open(path, "w").write(src)
+            for path, txt in originals.items():
+                open(path, "w").write(txt)
     sh("git -C /repo checkout -- .")
     bad = [r for r in results for p in r["expect"] if (r[p]["exit"] != (0 if r["neutral"] else 1))]
     print("mutants run: %d, unexpected outcomes: %d" % (len(results), len(bad)))
